@@ -226,6 +226,31 @@ def getTaskOp (j : Json) : Except String TaskOp :=
     | .ok _ => do return .setThroughput (← getPVal j "set_tt")
     | .error _ => do return .setInterval (← getPVal j "set_ti")
 
+def getJVal (j : Json) (k : String) : Except String JVal :=
+  match j.getObjVal? k with
+  | .error _ => pure .absent
+  | .ok Json.null => pure .null
+  | .ok _ => do
+    match ← getNum j k with
+    | some q => pure (.num q)
+    | none => pure .null
+
+def getLoopSpec (j : Json) : Except String LoopSpec := do
+  return ⟨← getJVal j "warmup-iterations", ← getJVal j "iterations", ← getJVal j "warmup-time-period", ← getJVal j "time-period",
+    ← getJVal j "ramp-up-time-period"⟩
+
+/-- the focus task's loop-control values as the real reader would hand them to `Task(...)`; `none` = TrackSyntaxError -/
+def readTrack (tr : Json) : Except String (Option (List LoopVals)) := do
+  let tasks ← (← getArr tr "tasks").mapM getLoopSpec
+  match tr.getObjVal? "parallel" with
+  | .ok (Json.obj _) =>
+    let par ← getLoopSpec (← getObj tr "parallel")
+    return parseParallelLoops par tasks
+  | _ => return tasks.mapM (parseTaskLoop LoopSpec.none)
+
+def loopValsJson (v : LoopVals) : Json :=
+  arr [optRat v.warmupIt, optRat v.iters, optRat v.warmupT, optRat v.period, optRat v.rampUp]
+
 def handle (op : String) (a : Json) : Except String Json := do
   match op with
   | "tput" =>
@@ -302,6 +327,27 @@ def handle (op : String) (a : Json) : Except String Json := do
       ("queue", arr ((st.queues.getD st.cur []).map (fun i => toJson i))),
       ("dropped", arr (st.dropped.map (fun i => toJson i)))])
       ((if st.dropped.isEmpty then [] else ["dropped"]) ++ (if st.batches.any (fun b => !b.isEmpty) then ["drained"] else []))
+  | "read_track" =>
+    match ← readTrack a with
+    | none => return err "TrackSyntaxError" ["track-syntax-error"]
+    | some vs => return ok (arr (vs.map loopValsJson)) ["parsed"]
+  | "loop_count" =>
+    let r ← getMode a
+    let t : TaskP := { warmupIt := ← getOptNat a "warmup_it", iters := ← getOptNat a "iters", warmupT := none, period := none, rampUp := none,
+                       clients := 1, sched := none, completesParent := false, anyCompletesParent := false }
+    let loop := scheduleLoop r t (← getBool a "runner_completion") (← getBool a "src_infinite") 0
+    let (n, w, last, mx) := iterTrace r (← getNat a "fuel") loop (0, 0, none, none)
+    return ok (Json.mkObj [("count", toJson n), ("warmup", toJson w), ("last", optRat last), ("max", optRat mx)])
+      [loopTag loop, if n ≥ 49 then "total>=49" else "total<49"]
+  | "sampler_bulk" =>
+    let cap ← getNat a "cap"
+    let evs ← (← getArr a "events").mapM (fun j => match j with
+      | Json.str "drain" => pure SBulk.drain
+      | _ => do let n ← j.getNat?; pure (SBulk.adds n))
+    let st := sbulkRun cap evs
+    return ok (Json.mkObj [("batches", arr (st.batches.map (fun n => toJson n))), ("queue", toJson st.queue), ("dropped", toJson st.dropped)])
+      ((if st.dropped > 0 then ["dropped"] else []) ++ (if st.batches.any (· > 16384) then ["batch>16384"] else []) ++
+       (if st.batches.any (· > 32768) then ["batch>32768"] else []))
   | "alloc_ramp" =>
     -- ramp-up wait of every TaskAllocation of a whole schedule; `ramps`: sub id -> ramp-up-time-period
     let r ← getMode a
@@ -341,6 +387,17 @@ def handle (op : String) (a : Json) : Except String Json := do
       warmupT := ← getNum task "warmup_t", period := ← getNum task "period", rampUp := ← getNum task "ramp_up",
       clients := ← getNat task "clients", sched := sched,
       completesParent := ← getBool task "completes_parent", anyCompletesParent := ← getBool task "any_completes_parent" }
+    -- the task's loop-control keys come from a track file through the reader
+    let t ← match a.getObjVal? "track" with
+      | .ok (Json.obj _) => do
+        let tr ← getObj a "track"
+        match ← readTrack tr with
+        | none => return err "TrackSyntaxError" ["setup-error", "track-syntax-error"]
+        | some vs =>
+          match vs[(← getNat tr "focus")]? with
+          | some v => pure (v.apply t)
+          | none => throw "track: focus out of range"
+      | _ => pure t
     -- the same Task object is read / rewritten / post-processed before it is scheduled
     let opsJ := match a.getObjVal? "task_ops" with
       | .ok (Json.arr xs) => xs.toList
@@ -351,9 +408,15 @@ def handle (op : String) (a : Json) : Except String Json := do
       | .ok (Json.obj _) => do
         let al ← getObj a "alloc"
         let sch ← (← getArr al "schedule").mapM parseElement
-        match (pickEntry sch (← getNat al "row") (← getNat al "pos")).bind allocClient with
+        -- the entry of client `k` of the focus task, found in the model's own matrix
+        let focus ← getNat al "focus"
+        let k ← getNat al "k"
+        let hit := (Alloc.allocations sch).findSome? (fun row => row.find? (fun e => match e with
+          | .task sub i _ _ => sub.id == focus && i == k
+          | _ => false))
+        match hit.bind allocClient with
         | some x => pure x
-        | none => throw "alloc: no task entry at (row, pos)"
+        | none => throw "alloc: the focus task has no such client"
       | _ => pure (← getNat task "clients", ← getNat cl "idx", ← getNat cl "gidx", ← getNat cl "total")
     let _ := cIdx
     let t : TaskP := { t with clients := tClients }
@@ -390,7 +453,8 @@ def handle (op : String) (a : Json) : Except String Json := do
       return ok res (runTags c f cap ++ progTags reqs o.wire.length
         ++ (if ops.isEmpty then [] else ["task-ops"])
         ++ (if ops.any (fun o => match o with | .testMode => true | _ => false) then ["test-mode"] else [])
-        ++ (match a.getObjVal? "alloc" with | .ok (Json.obj _) => ["from-allocator"] | _ => []))
+        ++ (match a.getObjVal? "alloc" with | .ok (Json.obj _) => ["from-allocator", s!"alloc:{cIdx}/{cGidx}/{cTotal}"] | _ => [])
+        ++ (match a.getObjVal? "track" with | .ok (Json.obj _) => ["from-track-file"] | _ => []))
   | _ => throw s!"unknown op {op}"
 
 end Drivers.Exec
